@@ -265,40 +265,70 @@ func checkC18(r *Run) {
 		// by symbolic evaluation, make([]byte, size) when size exceeds the pooled slice and
 		// pooled[:size] otherwise
 		okApp := false
-		ast.Inspect(recv.Decl.Body, func(nd ast.Node) bool {
-			cl, ok := nd.(*ast.CompositeLit)
-			if !ok || len(cl.Elts) != 1 || !strings.HasSuffix(types.TypeString(info.TypeOf(cl), nil), "p9.buffer") {
-				return true
+		// (the literal may sit in a closure of recv or in a private helper that only recv uses)
+		var homes []*FuncInfo
+		homes = append(homes, recv)
+		for _, fi := range r.L.funcsOfPkg("p9") {
+			if fi != recv && fi.Decl.Body != nil && m.transparent(fi) && m.onlyFor(fi, "p9.recv") {
+				homes = append(homes, fi)
 			}
-			kv, ok := cl.Elts[0].(*ast.KeyValueExpr)
-			if !ok || norm(kv.Key) != "data" || objOf(info, kv.Value) == nil {
-				return true
-			}
-			// size: the parameter of the enclosing literal
-			lit, _ := r.L.enclosingFunc(cl).(*ast.FuncLit)
-			if lit == nil || len(lit.Type.Params.List) != 1 || len(lit.Type.Params.List[0].Names) != 1 {
-				return true
-			}
-			size := res3.nameOf(info.Defs[lit.Type.Params.List[0].Names[0]])
-			eval := func(tooSmall bool) string {
-				v := valueAt(r.L, res3, recv, kv.Value, func(key string) (bool, bool) {
-					k := nospace(key)
-					if strings.HasPrefix(k, size+">len(") {
-						return tooSmall, true
-					}
-					return false, false
-				})
-				if v.undef {
-					return "unassigned"
+		}
+		for _, home := range homes {
+			hres := m.resolver(home)
+			ast.Inspect(home.Decl.Body, func(nd ast.Node) bool {
+				cl, ok := nd.(*ast.CompositeLit)
+				if !ok || len(cl.Elts) != 1 || !strings.HasSuffix(types.TypeString(info.TypeOf(cl), nil), "p9.buffer") {
+					return true
 				}
-				return nospace(v.s)
-			}
-			big, fits := eval(true), eval(false)
-			if big == "make([]byte,"+size+")" && strings.HasSuffix(fits, "[:"+size+"]") {
-				okApp = true
-			}
-			return true
-		})
+				kv, ok := cl.Elts[0].(*ast.KeyValueExpr)
+				if !ok || norm(kv.Key) != "data" || objOf(info, kv.Value) == nil {
+					return true
+				}
+				// size: the int parameter of the enclosing function (literal or helper)
+				var ft *ast.FuncType
+				switch f := r.L.enclosingFunc(cl).(type) {
+				case *ast.FuncLit:
+					ft = f.Type
+				case *ast.FuncDecl:
+					if home != recv {
+						ft = f.Type
+					}
+				}
+				if ft == nil {
+					return true
+				}
+				var sizeObj types.Object
+				for _, f := range ft.Params.List {
+					for _, nm := range f.Names {
+						if o := info.Defs[nm]; o != nil && o.Type().String() == "int" {
+							sizeObj = o
+						}
+					}
+				}
+				if sizeObj == nil {
+					return true
+				}
+				size := hres.nameOf(sizeObj)
+				eval := func(tooSmall bool) string {
+					v := valueAt(r.L, hres, home, kv.Value, func(key string) (bool, bool) {
+						k := nospace(key)
+						if strings.HasPrefix(k, size+">len(") {
+							return tooSmall, true
+						}
+						return false, false
+					})
+					if v.undef {
+						return "unassigned"
+					}
+					return nospace(v.s)
+				}
+				big, fits := eval(true), eval(false)
+				if big == "make([]byte,"+size+")" && strings.HasSuffix(fits, "[:"+size+"]") {
+					okApp = true
+				}
+				return true
+			})
+		}
 		r.check(okApp, "r3", "recv limits the pooled buffer to the frame's size", recv.Decl.Pos(), "data = data[:size]", "the pooled buffer is not cut to exactly the announced size: bytes of an earlier message lie inside the slice that is decoded")
 		// Put deferred
 		okPut := true
